@@ -55,7 +55,17 @@ def candidates(y, lo, side, m, absmax):
     return lo_c, hi_c
 
 
+_WORKBUF = {}
+
+
 def as_type(y, how, rng):
+    if how == "workbuf":
+        # one float64 work buffer of the caller, refilled in place before every query (a line scan does that)
+        wb = _WORKBUF.get(len(y))
+        if wb is None:
+            wb = _WORKBUF[len(y)] = np.zeros(len(y), dtype=np.double)
+        wb[:] = np.asarray(y, dtype=np.double)
+        return wb
     if how == "array":
         return np.array(y, dtype=np.double)
     if how == "list":
@@ -104,6 +114,7 @@ def check_point(ev, un, y_arg, y, lo, side, m, n, viol, obs, absmax, what):
 
 def run_case(c):
     N, m, kind = c["N"], c["m"], c["kind"]
+    _WORKBUF.clear()
     viol = []
     obs = {}
     n = 1 << (N * m)
@@ -164,7 +175,9 @@ def run_case(c):
                 y = hi.copy()
                 what = "corner-upper"
             y = np.minimum(np.maximum(y, lo), hi)
-            how = ["array", "list", "tuple"][int(rng.integers(3))]
+            how = ["array", "list", "tuple", "workbuf", "workbuf"][int(rng.integers(5))]
+            if how == "workbuf":
+                obs["work_buffer_queries"] = obs.get("work_buffer_queries", 0) + 1
             check_point(ev, un, as_type(y, how, rng), y, lo, side, m, n, viol, obs, absmax, what + "/" + how)
             kinds_seen[what] = kinds_seen.get(what, 0) + 1
         # integer-typed arguments whenever integer points lie in the box
